@@ -65,6 +65,11 @@ STMTS = {
     "closure_dict_set": (["cd := {}", "cdf := \\j -> (cd[j] = j)"], "cdf(i)", "len(cd)", lambda n: n),
     "rows_opassign": (["ro := (1 .* 4) .* N"], "ro[i][1] += i", "ro[N-1][1]", lambda n: n),
     "dict_of_dict_opassign": (["dod := {\"k\": {:0}}"], "dod[\"k\"][i % 7] += 1", "dod[\"k\"][0]", lambda n: (n + 6) // 7),
+    # a stack hovering at exactly half of its buffer's capacity (popped down from 2N), and at one above a power of two
+    "stack_at_half_capacity": (["ph := 0 .* (2*N)", "for (j <- 0 til N) (pop ph)"], "ph append= i; pop ph", "len(ph)", lambda n: n),
+    "stack_pow2_plus_one": (["pw := []", "for (j <- 0 til P2) (pw append= j)"], "pop pw; pw append= i", "len(pw)", lambda n: 2 ** (n.bit_length() - 1) + 1),
+    # op-assignment through an `and` lvalue updates both targets, each in place
+    "and_lvalue_append": (["la := []", "lb := [0]"], "(la and lb) append= i", "len(la) + len(lb)", lambda n: 2 * n + 1),
     # strings are collections too (Seq::String): one-character slot assignment on an unaliased string of 8n bytes
     "string_set": (["s8 := 'a' $* (8*N)"], "s8[i] = 'b'", "len(s8 filter (== 'b'))", lambda n: n),
     "string_nested_set": (["sn8 := ['a' $* (8*N)]"], "sn8[0][i] = 'b'", "len(sn8[0] filter (== 'b'))", lambda n: n),
@@ -88,7 +93,8 @@ INFO_ONLY = {
 
 
 def sub(s, n):
-    return s.replace("N", str(n))
+    # N = the size scale; P2 = one more than the largest power of two <= N (a list grown by appends to just past a doubling)
+    return s.replace("P2", str(2 ** (n.bit_length() - 1) + 1)).replace("N", str(n))
 
 
 def measure(nl, names, n, alias=None, table=STMTS):
